@@ -1,6 +1,7 @@
 //! tvh — the tsrun verification harness. One binary, one subcommand per engine.
 mod common;
 mod run;
+mod orders;
 mod reuse;
 mod c05;
 mod c13;
@@ -23,6 +24,7 @@ fn main() {
         "gcsched" => run::gcsched_main(&rest),
         "leak" => run::leak_main(&rest),
         "reuse" => reuse::main(&rest),
+        "orders" => orders::main(&rest),
         "c05" => c05::main(&rest),
         "c13" => c13::main(&rest),
         "c15" => c15::main(&rest),
